@@ -6,15 +6,20 @@ from harness import msggen
 
 
 class FakeReader:
-    def __init__(self, pieces, as_bytes):
+    def __init__(self, pieces, as_bytes, yields=False):
         self.pieces = list(pieces)
         self.as_bytes = as_bytes
         self.reads = 0
+        self.yields = yields
 
     async def read(self, n=-1):
+        if self.yields:
+            await asyncio.sleep(0)      # data of two connections arrives in turns
         return self._next()
 
     async def readline(self):
+        if self.yields:
+            await asyncio.sleep(0)
         return self._next()
 
     def _next(self):
@@ -51,30 +56,42 @@ class StubRouter:
 
 
 def run_loop(c):
-    got = []
-    reader = FakeReader(c["pieces"], c["transport"] != "tty")
+    got, got2 = [], []
+    nb = c.get("neighbour")
+    reader = FakeReader(c["pieces"], c["transport"] != "tty", yields=bool(nb))
+    reader2 = FakeReader(nb["pieces"], c["transport"] != "tty", yields=True) if nb else None
 
     def sink(m):
         got.append([reader.reads - 1, msggen.describe(m)])
 
-    async def main():
+    def make(reader, sink):
         if c["transport"] == "tcp-server":
             from indi.transport.server.tcp import ConnectionHandler
-            h = ConnectionHandler(reader, FakeWriter(), StubRouter(sink))
+            return ConnectionHandler(reader, FakeWriter(), StubRouter(sink))
         elif c["transport"] in ("tcp-client", "tcp-client-blob"):
             from indi.transport.client.tcp import ConnectionHandler
-            h = ConnectionHandler(reader, FakeWriter(), sink, for_blobs=(c["transport"] == "tcp-client-blob"))
+            return ConnectionHandler(reader, FakeWriter(), sink, for_blobs=(c["transport"] == "tcp-client-blob"))
+        from indi.transport.server.tty import ConnectionHandler
+        return ConnectionHandler(StubRouter(sink), reader, FakeWriter())
+
+    async def main():
+        h = make(reader, sink)
+        if nb:
+            # a second connection of the same kind, served at the same time (it may end inside a message)
+            h2 = make(reader2, lambda m: got2.append(msggen.describe(m)))
+            if nb.get("first"):
+                await asyncio.gather(h2.wait_for_messages(), h.wait_for_messages())
+            else:
+                await asyncio.gather(h.wait_for_messages(), h2.wait_for_messages())
         else:
-            from indi.transport.server.tty import ConnectionHandler
-            h = ConnectionHandler(StubRouter(sink), reader, FakeWriter())
-        await h.wait_for_messages()
+            await h.wait_for_messages()
         return h.buffer.max_buffer_size_before_frontal_cleanup
 
     thr = asyncio.run(main())
     per = [[] for _ in c["pieces"]]
     for k, v in got:
         per[k].append(v)
-    return {"status": "ok", "pieces": per, "raised": None, "thr_used": thr}
+    return {"status": "ok", "pieces": per, "raised": None, "thr_used": thr, "neighbour": got2 if nb else None}
 
 
 def run_case(c):
